@@ -813,6 +813,10 @@ func (ex *Exec) oblige(fr *Frame, st *State, kind, label, cond string, pos token
 	if cond == "true" {
 		return nil
 	}
+	if ex.cut {
+		// beyond the verified prefix (contract clause "cutafter"): nothing is claimed, nothing is assumed
+		return nil
+	}
 	if kind != "post" && kind != "pre" && kind != "inv-entry" && kind != "inv-pres" && kind != "lemma" &&
 		kind != "assigns" && kind != "typeinv" && kind != "dec" && kind != "own" && kind != "guarded" && kind != "crash" && !ex.opts.Safety {
 		ex.assume(st.pc, cond)
